@@ -195,12 +195,12 @@ fn run_handle_program(first_kind: u8, prog: &[HOp], workers: usize, check_thread
         w.dbs.clear();
         if check_threads {
             let t0 = Instant::now();
-            while worker_threads_alive() > 0 && t0.elapsed() < Duration::from_millis(500) {
+            while worker_threads_alive() > 0 && t0.elapsed() < Duration::from_secs(5) {
                 std::thread::sleep(Duration::from_micros(200));
             }
             let n = worker_threads_alive();
             if n > 0 {
-                return Err(("threads.still_alive".into(), format!("{n} fjall:worker threads still alive 500 ms after the last handle was dropped")));
+                return Err(("threads.still_alive".into(), format!("{n} fjall:worker threads still alive 5 s after the last handle was dropped")));
             }
         }
         for kind in 0..3u8 {
@@ -356,9 +356,9 @@ pub fn run(tier: &str) -> i32 {
                     std::thread::spawn(move || {
                         let _ = tx.send(run_handle_program(kind, &p2, workers, true));
                     });
-                    let res = match rx.recv_timeout(Duration::from_secs(20)) {
+                    let res = match rx.recv_timeout(Duration::from_secs(60)) {
                         Ok(r) => r,
-                        Err(_) => Err(("drop.never_returns".to_string(), "the program (ending with dropping every handle) did not finish within 20 s: Drop for DatabaseInner is blocked".to_string())),
+                        Err(_) => Err(("drop.never_returns".to_string(), "the program (ending with dropping every handle) did not finish within 60 s: Drop for DatabaseInner is blocked".to_string())),
                     };
                     if let Err((clause, detail)) = res {
                         findings.lock().unwrap().push(Finding {
